@@ -11,9 +11,9 @@ NEEDS_EBD = True
 RULE = ("random programs in a small ebuild/eclass dialect (assignments, +=, unset, inherit at arbitrary positions, nested and "
         "repeated inherits up to depth 3, phase functions, EXPORT_FUNCTIONS) for EAPI 0-8, written to cache-less repositories "
         "and regenerated through the real bash daemon; pkg.data is compared with an interpreter of PMS 10.2 accumulation "
-        "(token sets per key; every assignment site uses unique tokens). Every run first regenerates a directed list of 272 "
+        "(token sets per key; every assignment site uses unique tokens). Every run first regenerates a directed list of 292 "
         "small programs (implicit RDEPEND=DEPEND for EAPI 0-3 with RDEPEND absent / empty / set / unset again x own DEPEND x "
-        "eclass contributions; every accumulated variable contributed by two or three eclasses while the others stay empty), "
+        "eclass contributions; every accumulated variable contributed by two or three eclasses while the others stay empty; EXPORT_FUNCTIONS before and after the definitions), "
         "split over the shards. Non-trivial: the program inherits at least one "
         "eclass that sets an accumulated key or defines a phase; distinct = distinct program text.")
 ASSUMPTIONS = [
@@ -73,7 +73,8 @@ def gen_program(rng, idx):
             elif r < 0.93:
                 stmts.append(["func", rng.choice(phases)])
             elif is_eclass:
-                stmts.append(["export", [rng.choice(phases) for _ in range(rng.choice([1, 2]))]])
+                stmts.append([rng.choice(["export", "export", "export_early"]),
+                              [rng.choice(phases) for _ in range(rng.choice([1, 2]))]])
         return stmts
 
     for i, nm in enumerate(names):
@@ -139,6 +140,14 @@ def directed_programs(base_idx):
             add(eapi, [["inherit", ["a"]]], {"a": [["set", var, t + "1"], ["inherit", ["b"]]], "b": [["set", var, t + "2"]],
                                              })
             add(eapi, [["inherit", ["a", "b", "c"]]], dict(two, c=[["append", var, t + "3"]]))
+    # EXPORT_FUNCTIONS before / after the definitions, with a nested inherit in between, per EAPI family
+    for eapi in ("0", "2", "5", "7", "8"):
+        ph = ref.phases_for(eapi)
+        p1, p2 = ph[0], ph[-1]
+        add(eapi, [["inherit", ["a"]]], {"a": [["export_early", [p1]]]})
+        add(eapi, [["inherit", ["a"]]], {"a": [["export_early", [p1, p2]], ["inherit", ["b"]]], "b": [["export", [p2]]]})
+        add(eapi, [["inherit", ["a"]], ["func", p2]], {"a": [["inherit", ["b"]], ["export_early", [p1]]], "b": [["export_early", [p2]]]})
+        add(eapi, [["inherit", ["a"]]], {"a": [["export", [p1]]]})
     return progs
 
 
